@@ -12,7 +12,7 @@ import (
 
 func main() {
 	if len(os.Args) < 2 {
-		fmt.Fprintln(os.Stderr, "usage: govc verify|check ...")
+		fmt.Fprintln(os.Stderr, "usage: govc verify|check|audit ...")
 		os.Exit(2)
 	}
 	switch os.Args[1] {
@@ -20,6 +20,8 @@ func main() {
 		cmdVerify(os.Args[2:])
 	case "check":
 		cmdCheck(os.Args[2:])
+	case "audit":
+		cmdAudit(os.Args[2:])
 	default:
 		fmt.Fprintln(os.Stderr, "unknown command")
 		os.Exit(2)
